@@ -215,10 +215,17 @@ def _parse_matcher(m):
             close = match_close(m, i + 1)
             sub = _parse_matcher(m[i + 2:close])
             rep = m[close + 1]
-            if not is_p(rep, "?"):
-                raise AnchorError("only $( )? repetition is supported in matchers")
-            out.append(("opt", sub))
-            i = close + 2
+            if is_p(rep, "?"):
+                out.append(("opt", sub))
+                i = close + 2
+            elif is_p(rep, "*") or is_p(rep, "+"):
+                out.append(("rep", sub, None))
+                i = close + 2
+            elif close + 2 < len(m) and (is_p(m[close + 2], "*") or is_p(m[close + 2], "+")):
+                out.append(("rep", sub, rep))
+                i = close + 3
+            else:
+                raise AnchorError("unsupported repetition in a macro matcher")
         elif is_p(t, "$"):
             name = m[i + 1].text
             assert is_p(m[i + 2], ":")
@@ -259,7 +266,7 @@ def _match(pattern, args, pos, binds):
                     a = args[j]
                     if a.kind == "punct" and a.text in OPEN:
                         j = match_close(args, j)
-                    elif is_p(a, ",") or is_p(a, ";"):
+                    elif is_p(a, ",") or is_p(a, ";") or (a.kind == "punct" and a.text in (")", "]", "}")):
                         break
                     j += 1
                 binds[p[1]] = args[pos:j]
@@ -274,7 +281,40 @@ def _match(pattern, args, pos, binds):
                 binds.update(saved)
             else:
                 pos = r
+        elif p[0] == "rep":
+            # $( sub ) sep? *  : the variables of `sub` are bound to one token list per iteration
+            iters = []
+            while True:
+                b2 = {}
+                r = _match(p[1], args, pos, b2)
+                if r is None or r == pos:
+                    break
+                iters.append(b2)
+                pos = r
+                if p[2] is not None:
+                    if pos < len(args) and args[pos].key() == p[2].key():
+                        pos += 1
+                    else:
+                        break
+            for name in _matcher_vars(p[1]):
+                binds[name] = RepBind([it.get(name, []) for it in iters])
     return pos
+
+
+class RepBind(object):
+    """binding of a macro variable that sits inside a `$( .. )*` repetition: one token list per iteration"""
+    def __init__(self, items):
+        self.items = items
+
+
+def _matcher_vars(pattern):
+    out = []
+    for p in pattern:
+        if p[0] == "var":
+            out.append(p[1])
+        elif p[0] in ("opt", "rep"):
+            out.extend(_matcher_vars(p[1]))
+    return out
 
 
 def _let_bound(body):
@@ -298,15 +338,37 @@ def _transcribe(body, binds, rename):
             close = match_close(body, i + 1)
             sub = body[i + 2:close]
             rep = body[close + 1]
-            if not is_p(rep, "?"):
-                raise AnchorError("only $( )? repetition is supported in transcribers")
             vars_ = [sub[k + 1].text for k in range(len(sub) - 1) if is_p(sub[k], "$") and sub[k + 1].kind == "id"]
-            if vars_ and all(v in binds for v in vars_):
-                exp = _transcribe(sub, binds, rename)
-                if exp:
-                    exp[0] = exp[0].clone(trivia=t.trivia)
-                out.extend(exp)
-            i = close + 2
+            if is_p(rep, "?"):
+                if vars_ and all(v in binds for v in vars_):
+                    exp = _transcribe(sub, binds, rename)
+                    if exp:
+                        exp[0] = exp[0].clone(trivia=t.trivia)
+                    out.extend(exp)
+                i = close + 2
+            else:
+                sep = None
+                if is_p(rep, "*") or is_p(rep, "+"):
+                    i = close + 2
+                elif close + 2 < len(body) and (is_p(body[close + 2], "*") or is_p(body[close + 2], "+")):
+                    sep = rep
+                    i = close + 3
+                else:
+                    raise AnchorError("unsupported repetition in a macro transcriber")
+                reps = [v for v in vars_ if isinstance(binds.get(v), RepBind)]
+                if not reps:
+                    raise AnchorError("macro repetition without a repeated variable")
+                n = len(binds[reps[0]].items)
+                for k in range(n):
+                    b2 = dict(binds)
+                    for v in reps:
+                        b2[v] = binds[v].items[k]
+                    exp = _transcribe(sub, b2, rename)
+                    if k > 0 and sep is not None:
+                        out.append(sep.clone())
+                    if exp and k == 0:
+                        exp[0] = exp[0].clone(trivia=t.trivia)
+                    out.extend(exp)
         elif is_p(t, "$") and i + 1 < len(body) and body[i + 1].kind == "id":
             name = body[i + 1].text
             if name not in binds:
@@ -334,7 +396,11 @@ def expand(macro, args):
     pos = _match(pattern, args, 0, binds)
     if pos is None or pos != len(args):
         raise AnchorError("macro %s: invocation does not match its matcher" % macro.name)
-    arg_ids = {t.text for v in binds.values() for t in v if t.kind == "id"} - RUST_KEYWORDS
+    def _flat(v):
+        if isinstance(v, RepBind):
+            return [t for it in v.items for t in it]
+        return v
+    arg_ids = {t.text for v in binds.values() for t in _flat(v) if t.kind == "id"} - RUST_KEYWORDS
     # macro_rules hygiene: an identifier written in the macro body can never refer to a local
     # variable of the call site, so body identifiers that collide with identifiers passed in
     # arguments are macro-local bindings and are renamed.
